@@ -57,6 +57,13 @@ LOOP = ("<loop>",)
 STRICT, LEADING_SEP = 0, 1
 
 
+def _head(t):
+    """Kind of the parser OBJECT a term builds: `%` and debug() return the object they were applied to."""
+    while t[0] == "named" or t[0] == "debug":
+        t = t[1]
+    return t[0]
+
+
 def flat(v):
     """Concatenated text of a value (strings inside lists; tagged tuples contribute their payload)."""
     if isinstance(v, str):
@@ -152,7 +159,7 @@ def ev(t, s, i, mode=STRICT, st=Stats):
         r2 = ev(t[2], s, r[0], mode, st)
         if r2 is FAIL:
             return FAIL
-        return (r2[0], (r[1] + [r2[1]]) if t[1][0] == "seq" else [r[1], r2[1]])
+        return (r2[0], (r[1] + [r2[1]]) if _head(t[1]) == "seq" else [r[1], r2[1]])
     if k == "alt":
         r = ev(t[1], s, i, mode, st)
         if r is not FAIL:
@@ -290,7 +297,7 @@ def ev(t, s, i, mode=STRICT, st=Stats):
                 raise Loop()            # F would be re-entered at the same position
             r2 = ev(t, s, r[0], mode, st)
             if r2 is not FAIL:
-                return (r2[0], (r[1] + [r2[1]]) if t[1][0] == "seq" else [r[1], r2[1]])
+                return (r2[0], (r[1] + [r2[1]]) if _head(t[1]) == "seq" else [r[1], r2[1]])
         st.absorbed += 1
         return ev(t[2], s, i, mode, st)
     raise ValueError("unknown term kind %r" % (k,))
@@ -386,7 +393,7 @@ def tabular(t, s):
                         res = a if b is FAIL else FAIL
                     elif b is not FAIL:
                         if k == "seq":
-                            res = (b[0], a[1] + [b[1]] if nd[1][0] == "seq" else [a[1], b[1]])
+                            res = (b[0], a[1] + [b[1]] if _head(nd[1]) == "seq" else [a[1], b[1]])
                         elif k == "kl":
                             res = (b[0], a[1])
                         elif k == "kr":
@@ -491,7 +498,7 @@ def tabular(t, s):
                             res = LOOP
                             took = True
                         elif f is not FAIL:
-                            res = (f[0], a[1] + [f[1]] if nd[1][0] == "seq" else [a[1], f[1]])
+                            res = (f[0], a[1] + [f[1]] if _head(nd[1]) == "seq" else [a[1], f[1]])
                             took = True
                 if not took:
                     res = sub(nd, 2)[pos]
